@@ -29,7 +29,7 @@ type Item struct {
 	A      int    `json:"a,omitempty"`      // component / handle index
 	B      int    `json:"b,omitempty"`      // second component for join
 	// Arity of a join / fnseq call: 0 = the two components A, B; 1 = A alone; 3 = A, B, A; -1 = none.
-	Arity int `json:"arity,omitempty"`
+	Arity  int    `json:"arity,omitempty"`
 	Block  []Item `json:"block,omitempty"`
 	HasBlk bool   `json:"has_block,omitempty"`
 }
